@@ -140,6 +140,7 @@ func (c *FnCtx) atLoopHead(p *Path, b *ssa.BasicBlock, li *loopInfoT) bool {
 	for _, t := range c.loopModifies(p, fr, li, lc) {
 		c.havoc(&p.heap, t.prefix, t.ref)
 	}
+	c.advanceAlloc(p) // earlier iterations may have allocated
 	if len(li.body) > 0 {
 		// clock readings inside the loop
 		if p.now != "" {
